@@ -1,6 +1,6 @@
 //! Native replay of a Kani counterexample on the REAL crate.
 //! usage: distreplay <kind> <unit id> <float|-> <ty:bits>...      (ty in f64,f32,u64,u32,usize ; w:<word> for RNG words)
-//! exit 1: the contract predicate is violated natively (counterexample confirmed); exit 0: it holds; exit 2: unknown unit.
+//! exit 1: the contract predicate is violated natively, or the real crate panics (counterexample confirmed); exit 0: it holds; exit 2: unknown unit.
 use verif_replay::gen_ctor::replay_ctor;
 use verif_replay::samplers::replay_sampler;
 
@@ -16,10 +16,18 @@ fn main() {
         let v: u64 = v.parse().expect("decimal bits");
         if t == "w" { words.push(v) } else { vals.push(v) }
     }
-    let res = match kind {
+    // the replay code itself never unwraps a constructor result (`.ok()?`), so a panic here is a panic of the REAL crate
+    // on the verifier's input - a violation of the "never panics" part of every contract
+    let res = match std::panic::catch_unwind(|| match kind {
         "ctor" => replay_ctor(id, fl, &vals),
         "sampler" => replay_sampler(id, fl, &vals, &words),
         _ => None,
+    }) {
+        Ok(r) => r,
+        Err(e) => {
+            let msg = e.downcast_ref::<String>().cloned().or_else(|| e.downcast_ref::<&str>().map(|s| s.to_string())).unwrap_or_default();
+            Some((false, format!("{} {} {}: the real crate PANICKED on values {:?} words {:?}: {}", kind, id, fl, vals, words, msg)))
+        }
     };
     match res {
         None => { println!("unknown replay unit {} {} {}", kind, id, fl); std::process::exit(2) }
